@@ -196,6 +196,9 @@ func (e *Engine) VerifyFunc(fn *ssa.Function, fc *contract.Func) (rep *FuncRepor
 		}
 		penv.setResult(o.result, fn.Signature)
 		o.st.label("exit")
+		for _, u := range fc.Uses {
+			o.st.assume(e.evalBool(penv, u))
+		}
 		for _, en := range fc.Ensures {
 			e.addOblig(o.st, "post", clauseLabel(en), propsOr(en.Props, "SAFETY"), e.evalBool(penv, en.Expr), fn.Pos())
 		}
@@ -274,4 +277,79 @@ func (e *Engine) ghostValue(name, typ string, fn *ssa.Function) Value {
 		}
 	}
 	panic("unknown ghost type " + typ)
+}
+
+// VerifyLemmas generates the obligations of every lemma (plain or by induction).
+func (e *Engine) VerifyLemmas() {
+	for _, l := range e.Lemmas {
+		e.verifyLemma(l)
+	}
+}
+
+func (e *Engine) lemmaEnv(l *contract.Lemma, st *State, override map[string]Value) *Env {
+	env := &Env{e: e, st: st, old: st, vars: map[string]Value{}}
+	if p := e.SSAPkgs[e.LemmaPkg[l]]; p != nil {
+		env.pkg = p
+	}
+	for _, prm := range l.Params {
+		fs := strings.Fields(prm)
+		typ := "int"
+		if len(fs) > 1 {
+			typ = fs[1]
+		}
+		env.vars[fs[0]] = e.ghostValue(l.Name+"."+fs[0], typ, nil)
+	}
+	for k, v := range override {
+		env.vars[k] = v
+	}
+	return env
+}
+
+func (e *Engine) verifyLemma(l *contract.Lemma) {
+	name := "lemma " + l.Name
+	defer func() {
+		if r := recover(); r != nil {
+			e.Obligs = append(e.Obligs, &Oblig{Name: name + "/outside-subset", Kind: "subset", Props: propsOr(l.Props, "SAFETY"), Func: name, Goal: smt.False, Note: fmt.Sprint(r)})
+		}
+	}()
+	newState := func() *State {
+		return &State{cellVals: map[*Cell]Value{}, heaps: map[string]*smt.Term{}, facts: map[*smt.Term]bool{}, globals: map[*ssa.Global]Value{}, nonnil: map[*smt.Term]bool{}, alloc: smt.IntC(1), fr: &Frame{regs: map[ssa.Value]Value{}, cells: map[*ssa.Alloc]*Cell{}, active: map[*ssa.BasicBlock]*loopAct{}, lets: map[string]Value{}, ghost: map[string]Value{}, callCount: map[string]int{}}}
+	}
+	add := func(st *State, label string, goal *smt.Term) {
+		o := &Oblig{Name: name + "/" + label, Kind: "lemma", Props: propsOr(l.Props, "SAFETY"), Func: name, Goal: goal, pc: st.pc, Seq: len(e.Obligs)}
+		if goal == smt.True {
+			o.Trivial = true
+		}
+		e.Obligs = append(e.Obligs, o)
+	}
+	if l.Induct == "" {
+		st := newState()
+		env := e.lemmaEnv(l, st, nil)
+		for _, r := range l.Requires {
+			st.assume(e.evalBool(env, r.Expr))
+		}
+		for _, u := range l.Uses {
+			st.assume(e.evalBool(env, u))
+		}
+		add(st, "goal", e.evalBool(env, l.Expr))
+		return
+	}
+	// base case
+	st := newState()
+	env := e.lemmaEnv(l, st, map[string]Value{l.Induct: IntV{smt.IntC(0)}})
+	for _, u := range l.Uses {
+		st.assume(e.evalBool(env, u))
+	}
+	add(st, "base", e.evalBool(env, l.Expr))
+	// step
+	st = newState()
+	k := smt.Var(l.Name+".k!ind", smt.Int)
+	st.assume(smt.Le(smt.IntC(0), k))
+	envK := e.lemmaEnv(l, st, map[string]Value{l.Induct: IntV{k}})
+	st.assume(e.evalBool(envK, l.Expr))
+	for _, u := range l.Uses {
+		st.assume(e.evalBool(envK, u))
+	}
+	envK1 := e.lemmaEnv(l, st, map[string]Value{l.Induct: IntV{smt.Add(k, smt.IntC(1))}})
+	add(st, "step", e.evalBool(envK1, l.Expr))
 }
